@@ -69,13 +69,18 @@ def expected_short(value):
     return f"{quant:.3f} Seconds"
 
 
-def check_duration(value, milliseconds):
-    """value: int or float handed to format_hms."""
+def check_duration(value, milliseconds, setting=None):
+    """value: int or float handed to format_hms.  setting: the caller's decimal context while
+    the library runs (the oracle below always computes in a context of its own)."""
     text_utils = _lib()
     desc = f"format_hms({value!r}, {milliseconds})"
     core.rejected(text_utils.format_hms, "soon", milliseconds)
     try:
-        got = text_utils.format_hms(value, milliseconds)
+        if setting:
+            with decimal_setting(setting):
+                got = text_utils.format_hms(value, milliseconds)
+        else:
+            got = text_utils.format_hms(value, milliseconds)
     except Exception as exc:                # pylint: disable=broad-except
         return [("raise", f"{desc} raised {exc!r}")]
     secs = F(value) / 1000 if milliseconds else F(value)
@@ -292,11 +297,59 @@ def _int_chunk(values):
     return part
 
 
+DECIMAL_SETTINGS = ("prec6", "round_down", "round_half_up", "basic", "traps_inexact")
+
+
+class decimal_setting:                      # pylint: disable=invalid-name
+    """The calling program's decimal context - like the ambient mpmath precision of the motion
+    calculators, a process-wide arithmetic setting the library does not own."""
+
+    def __init__(self, name):
+        self.name = name
+        self.manager = None
+
+    def __enter__(self):
+        import decimal                      # pylint: disable=import-outside-toplevel
+        self.manager = decimal.localcontext()
+        ctx = self.manager.__enter__()
+        if self.name == "prec6":
+            ctx.prec = 6
+        elif self.name == "round_down":
+            ctx.rounding = decimal.ROUND_DOWN
+        elif self.name == "round_half_up":
+            ctx.rounding = decimal.ROUND_HALF_UP
+        elif self.name == "basic":
+            decimal.setcontext(decimal.BasicContext.copy())
+        elif self.name == "traps_inexact":
+            ctx.traps[decimal.Inexact] = True
+        return self
+
+    def __exit__(self, *exc):
+        return self.manager.__exit__(*exc)
+
+
+def _decimal_chunk(values):
+    part = core.Part()
+    for setting in DECIMAL_SETTINGS:
+        for value in values:
+            for millis in (False, True):
+                bad = check_duration(value, millis, setting)
+                part.count("duration_cases")
+                part.count("decimal_context_cases")
+                for clause, msg in bad:
+                    part.violation(f"{clause}:decimal:{setting}:{value!r}:{millis}",
+                                   msg + f" [caller's decimal context: {setting}]",
+                                   {"kind": "duration_decimal", "value": value,
+                                    "milliseconds": millis, "setting": setting})
+    return part
+
+
 def _dispatch(job):
     return {"esc": _escape_chunk, "dur": _duration_chunk, "half": _half_chunk,
             "halfms": _halfms_chunk,
             "int": _int_chunk, "long": _long_chunk, "edge": _edge_chunk,
-            "cp": _codepoint_chunk, "markup": _markup_chunk}[job[0]](job[1])
+            "cp": _codepoint_chunk, "markup": _markup_chunk,
+            "decimal": _decimal_chunk}[job[0]](job[1])
 
 
 def run(ctx):
@@ -309,6 +362,11 @@ def run(ctx):
         jobs.append(("long", chunk))
     for chunk in core.split(MARKUP, 10):
         jobs.append(("markup", chunk))
+    spread = [0, 9.9994, 9.9996, 10, 10.7, 12.5, 59.4, 59.5, 3599.4, 3599.6, 3600, 86399.7, 99999.5,
+              999999.4, 999999.5, 1000000, 1234567.5, 9999999.5, 10 ** 7] + \
+        [k + 0.5 for k in range(10, 60)] + list(range(0, 4000, 37))
+    for chunk in core.split(spread, 8):
+        jobs.append(("decimal", chunk))
     for low, high in LEGAL_RANGES:
         for start in range(low, high + 1, 0x4000):
             jobs.append(("cp", (start, min(start + 0x4000, high + 1))))
@@ -375,6 +433,9 @@ def replay(case):
     if case.get("kind") == "callform":
         from .. import callforms          # pylint: disable=import-outside-toplevel
         return callforms.replay(case)
+    if case["kind"] == "duration_decimal":
+        return [m for _c, m in check_duration(case["value"], case["milliseconds"],
+                                              case["setting"])]
     if case["kind"] == "edge":
         return [m for _c, m in check_duration(case["value"], case["ms"])]
     if case["kind"] == "escape":
